@@ -66,6 +66,15 @@ def run(chk, repo, tier):
     run_f10_f11(chk, repo)
     run_f12(chk, repo)
     run_f13_f14(chk, repo)
+    # subs() / free_symbols of the statement classes must reach every expression field: every refactoring that renames,
+    # inlines or substitutes a symbol goes through them (rule D1 of C10)
+    from rules.C02b import run_b23
+    run_b23(chk, repo)
+    from rules.C05 import run_o14
+    run_o14(chk, repo)
+    from rules.C10 import run_d1
+    run_d1(chk, repo, chk.rule('D1', 'symbol accessors (free_symbols, subs) cover every expression field through the matching '
+                                     'accessor', floor=10))
 
 
 # bare-statement calls whose dropped result was read and confirmed harmless
